@@ -182,6 +182,19 @@ mod table {
     reuse_entry!(spec_reuse_c07, reuse::reuse_c07);
     reuse_entry!(spec_reuse_c17, reuse::reuse_c17);
 
+    pub fn spec_shared_fci(data: &[u8], st: &mut Stats) -> Out {
+        let mut c = Cur::new(data);
+        let n = 1 + (c.u8() as usize) % 5;
+        let order = (0..n).map(|_| c.flag()).collect();
+        let b = (c.v32(), c.v32(), c.padding(false));
+        let a = match valid(d::leaf_in(&mut c, false, 12, 16))? {
+            PacketSpec::Fb(f) => f,
+            _ => return None,
+        };
+        let sc = reuse::SharedFciCase { a, b, order };
+        Some((reuse::shared_fci_oracle(&sc, st), js(&sc)))
+    }
+
     pub fn spec_c14(data: &[u8], st: &mut Stats) -> Out {
         let mut c = Cur::new(data);
         let (inv, only_last) = match c.u8() % 6 {
@@ -291,7 +304,7 @@ mod table {
             ("C16", Mode::Spec) => vec![e("random-configs", spec_c16)],
             ("C17", Mode::Spec) => vec![e("random-configs", spec_c17), e("valid-configs", spec_c17_valid), e("same-builder-used-repeatedly", spec_reuse_c17)],
             ("C19", Mode::Spec) => vec![e("random-third-party", spec_c19)],
-            ("C20", Mode::Spec) => vec![e("any-configs-x-histories", spec_c20)],
+            ("C20", Mode::Spec) => vec![e("any-configs-x-histories", spec_c20), e("any-configs-x-histories", spec_c20), e("borrowed-fci-builder-shared-by-two-packets", spec_shared_fci)],
             _ => vec![],
         }
     }
